@@ -436,6 +436,9 @@ func VHString() {
 // VHHistory: D operations in a row from the constructor (see VMapHistory).
 func VHHistory() {
 	t := NewWith[int, int](vl.Cmp)
+	if v.CfgOr("ctor", 0) == 1 { // the default-comparator constructor (cmp.Compare); only meaningful with cmp=0
+		t = New[int, int]()
+	}
 	maps.VMapHistory(t, maps.VKind{Name: "AVLTree", SortedKeys: true, Inv: func() { VInv(t) }})
 }
 
